@@ -196,6 +196,7 @@ func Main() {
 	for _, c := range fixedSetCases() {
 		m.judgeSetCase(c)
 	}
+	m.collectionCheck()
 
 	// ---- (2) corpus fonts
 	faces := corpus.Faces()
